@@ -1,14 +1,19 @@
 (* C07 — bytes buffer: executable model transcribing
-   muggle/c/memory/bytes_buffer.c (with the two repairs of
+   muggle/c/memory/bytes_buffer.c (with the three repairs of
    /verif/fixes/C07-*.patch: writers reset the truncation mark when the write
-   position REACHES it, reader_move wraps at the mark like read does).
+   position REACHES it, reader_move wraps at the mark like read does,
+   writer_move_n commits a region at the pointer it was given even when the
+   reader emptied the buffer - refresh() went back to the origin - after the
+   region was handed out).
 
    State = the struct's fields c w r t and the byte array (a list of length c).
    Pointers into the array are offsets.  Every memcpy of the C code is one
    [sub] (read of a range) or [blit] (write of a range) and contributes one
    (offset, length) entry to the access list the operation returns; a region
    handed to the caller by writer_fc / reader_fc is an entry too.
-   C [int] overflow is not modelled (sizes and capacity are far below 2^31). *)
+   C [int] overflow is not modelled: every comparison of the code is made before
+   the addition it guards, so sizes up to INT_MAX never overflow; capacities are
+   far below 2^31.  Sizes are compared as signed integers (Z), as in C. *)
 From Coq Require Export List ZArith Lia Bool.
 Export ListNotations.
 Local Open Scope Z_scope.
@@ -31,6 +36,12 @@ Definition blit (l : list byte) (off : Z) (src : list byte) : list byte :=
 (* muggle_bytes_buffer_init; malloc'ed contents are a filler chosen by the caller *)
 Definition init (c : Z) (fill : byte) : bb :=
   mkbb c 0 0 c (repeat fill (Z.to_nat c)).
+
+(* ... which returns false when malloc fails.  malloc((size_t)capacity) of a
+   negative int asks for more than 2^63 bytes and cannot succeed (LP64);
+   capacity 0 is a successful malloc(0): c = t = 0. *)
+Definition init_opt (c : Z) (fill : byte) (alloc_ok : bool) : option bb :=
+  if (c <? 0) || negb alloc_ok then None else Some (init c fill).
 
 (* ---- static helpers (three-case accounting of the header comment) ---- *)
 
@@ -98,9 +109,9 @@ Definition advance_w (s : bb) (n : Z) (b : list byte) : bb :=
   let w2 := if w1 =? cap s then 0 else w1 in
   mkbb (cap s) w2 (rp s) t1 b.
 
-(* muggle_bytes_buffer_write (num_bytes = |src|) *)
-Definition write (s : bb) (src : list byte) : bb * bool * acc :=
-  let n := len src in
+(* muggle_bytes_buffer_write(num_bytes = n, src); src holds at least n bytes
+   whenever the call can be accepted *)
+Definition write_n (s : bb) (n : Z) (src : list byte) : bb * bool * acc :=
   let cw := contiguous_writable s in
   if n <=? cw then
     (advance_w s n (blit (buf s) (wp s) src), true, [(wp s, n)])
@@ -115,6 +126,9 @@ Definition write (s : bb) (src : list byte) : bb * bool * acc :=
       let b2 := blit b1 0 (sub src cw remain) in
       (mkbb (cap s) remain (rp s) (cap s) b2, true,
        (if 0 <? cw then [(wp s, cw)] else []) ++ [(0, remain)]).
+
+(* the usual call: num_bytes = |src| *)
+Definition write (s : bb) (src : list byte) : bb * bool * acc := write_n s (len src) src.
 
 (* ---- zero-copy operations ---- *)
 
@@ -135,12 +149,18 @@ Definition writer_move (s : bb) (n : Z) : bb * bool :=
     if n <=? jw then (mkbb (cap s) n (rp s) (wp s) (buf s), true)
     else (s, false).
 
-(* muggle_bytes_buffer_writer_move_n: ptr given as an offset *)
+(* muggle_bytes_buffer_writer_move_n: ptr given as an offset.
+   REPAIRED: when bytes are committed through a pointer that is neither the
+   origin nor buffer + w (the reader emptied the buffer after the region was
+   handed out and refresh() moved w and r to the origin), w and r are first put
+   at the pointer. *)
 Definition writer_move_n (s : bb) (ptr : Z) (n : Z) : bb * bool :=
   if ptr =? 0 then
     let t1 := if 0 <? wp s then wp s else tp s in
     (mkbb (cap s) n (rp s) t1 (buf s), true)
-  else (advance_w s n (buf s), true).
+  else
+    let s1 := if (0 <? n) && negb (ptr =? wp s) then mkbb (cap s) ptr ptr (tp s) (buf s) else s in
+    (advance_w s1 n (buf s1), true).
 
 (* muggle_bytes_buffer_reader_fc *)
 Definition reader_fc (s : bb) (n : Z) : option Z :=
@@ -164,12 +184,15 @@ Definition poke (s : bb) (off : Z) (data : list byte) : bb :=
 
 Inductive op :=
 | OWrite (src : list byte)
+| OWriteN (n : Z)              (* write(n, one-byte block): performed only for n >= c, which can never be accepted *)
 | ORead (n : Z)
 | OFetch (n : Z)
-| OWfc (n : Z)                 (* writer_fc n; the pointer stays pending *)
-| OWmn (data : list byte)      (* store data through the pending pointer, writer_move_n ptr |data| *)
+| OWfc (n : Z)                 (* writer_fc n; the region stays outstanding *)
+| OWmn (data : list byte)      (* store data through the outstanding pointer, writer_move_n ptr |data| *)
 | OWmove (data : list byte)    (* writer_fc |data|, store, deprecated writer_move |data| *)
-| ORfc (n : Z)
+| OWmoveN (n : Z)              (* writer_fc n, deprecated writer_move n, no store: performed only for n >= c *)
+| ORfc (n : Z)                 (* reader_fc n; the region stays outstanding *)
+| ORpeek                       (* read the outstanding reader region once more *)
 | ORmove (k : Z)
 | OClear.
 
@@ -182,44 +205,64 @@ Inductive res :=
 | RUnit
 | RSkip.                        (* contract of Appendix B not met: operation not performed *)
 
-(* session = buffer + the pointer handed out by the directly preceding writer_fc *)
-Record sess := mksess { st : bb; wptr : option (Z * Z) }.
+(* session = buffer + the two outstanding zero-copy regions (offset, size asked for).
+   The pointer of the last successful writer_fc stays outstanding while only the
+   READER side works (read, fetch, reader_fc, reader_move, a re-read) or a
+   writer_fc returns NULL; writer-side operations and clear drop it, writer_move_n
+   consumes it.  Symmetrically the pointer of the last successful reader_fc stays
+   outstanding across every writer-side operation and fetch; read, reader_move
+   and clear drop it. *)
+Record sess := mksess { st : bb; wptr : option (Z * Z); rptr : option (Z * Z) }.
 
 Definition step (x : sess) (o : op) : sess * res * acc :=
   let s := st x in
   match o with
-  | OWrite src => let '(s', ok, a) := write s src in (mksess s' None, RBool ok, a)
-  | ORead n => let '(s', r, a) := read s n in (mksess s' None, RBytes r, a)
-  | OFetch n => let '(r, a) := fetch s n in (mksess s None, RBytes r, a)
+  | OWrite src => let '(s', ok, a) := write s src in (mksess s' None (rptr x), RBool ok, a)
+  | OWriteN n =>
+    if cap s <=? n then
+      let '(s', ok, a) := write_n s n [] in (mksess s' None (rptr x), RBool ok, a)
+    else (mksess s None (rptr x), RSkip, [])
+  | ORead n => let '(s', r, a) := read s n in (mksess s' (wptr x) None, RBytes r, a)
+  | OFetch n => let '(r, a) := fetch s n in (mksess s (wptr x) (rptr x), RBytes r, a)
   | OWfc n =>
     match writer_fc s n with
-    | Some off => (mksess s (Some (off, n)), RPtr (Some off), [(off, n)])
-    | None => (mksess s None, RPtr None, [])
+    | Some off => (mksess s (Some (off, n)) (rptr x), RPtr (Some off), [(off, Z.max 0 n)])
+    | None => (mksess s (wptr x) (rptr x), RPtr None, [])
     end
   | OWmn data =>
     match wptr x with
     | Some (off, n) =>
       if len data <=? n then
         let '(s2, ok) := writer_move_n (poke s off data) off (len data) in
-        (mksess s2 None, RBool ok, [(off, len data)])
-      else (mksess s None, RSkip, [])
-    | None => (mksess s None, RSkip, [])
+        (mksess s2 None (rptr x), RBool ok, [(off, len data)])
+      else (mksess s None (rptr x), RSkip, [])
+    | None => (mksess s None (rptr x), RSkip, [])
     end
   | OWmove data =>
     let n := len data in
     match writer_fc s n with
     | Some off =>
       let '(s2, ok) := writer_move (poke s off data) n in
-      (mksess s2 None, RMove ok (Some off), [(off, n)])
-    | None => let '(s2, ok) := writer_move s n in (mksess s2 None, RMove ok None, [])
+      (mksess s2 None (rptr x), RMove ok (Some off), [(off, n)])
+    | None => let '(s2, ok) := writer_move s n in (mksess s2 None (rptr x), RMove ok None, [])
     end
+  | OWmoveN n =>
+    if cap s <=? n then
+      let p := writer_fc s n in
+      let '(s2, ok) := writer_move s n in (mksess s2 None (rptr x), RMove ok p, [])
+    else (mksess s None (rptr x), RSkip, [])
   | ORfc n =>
     match reader_fc s n with
-    | Some off => (mksess s None, RPtrBytes (Some (off, sub (buf s) off n)), [(off, n)])
-    | None => (mksess s None, RPtrBytes None, [])
+    | Some off => (mksess s (wptr x) (Some (off, n)), RPtrBytes (Some (off, sub (buf s) off n)), [(off, Z.max 0 n)])
+    | None => (mksess s (wptr x) (rptr x), RPtrBytes None, [])
     end
-  | ORmove k => let '(s', ok) := reader_move s k in (mksess s' None, RBool ok, [])
-  | OClear => (mksess (clear s) None, RUnit, [])
+  | ORpeek =>
+    match rptr x with
+    | Some (off, n) => (x, RPtrBytes (Some (off, sub (buf s) off n)), [(off, Z.max 0 n)])
+    | None => (x, RSkip, [])
+    end
+  | ORmove k => let '(s', ok) := reader_move s k in (mksess s' (wptr x) None, RBool ok, [])
+  | OClear => (mksess (clear s) None None, RUnit, [])
   end.
 
 (* what a driver prints after each operation *)
@@ -237,7 +280,14 @@ Fixpoint run (x : sess) (ops : list op) : sess * list obs :=
     let (x2, obs') := run x1 rest in (x2, ob :: obs')
   end.
 
-Definition start (c : Z) (fill : byte) : sess := mksess (init c fill) None.
+Definition start (c : Z) (fill : byte) : sess := mksess (init c fill) None None.
+
+(* what "init <c> [fail]" does: None = muggle_bytes_buffer_init returned false, there is no buffer *)
+Definition start_opt (c : Z) (fill : byte) (alloc_ok : bool) : option sess :=
+  match init_opt c fill alloc_ok with
+  | Some s => Some (mksess s None None)
+  | None => None
+  end.
 
 (* every range of an access list lies inside [0, c) *)
 Definition acc_in_range (c : Z) (a : acc) : bool :=
